@@ -1,6 +1,6 @@
 #!/bin/bash
 # try_seed.sh <seed dir> <prop> [tier]: apply the change to /repo, run ./check, undo.  Prints the verdict lines.
 D="$1"; P="$2"; T="${3:-quick}"
-cd /repo && git apply "$D/patch.diff" 2>/dev/null || git apply --3way "$D/patch.diff" >/dev/null 2>&1 || { echo "$D: apply failed"; exit 3; }
+cd /repo && git apply "$D/patch.diff" 2>/dev/null || { echo "$D: apply failed"; git reset -q --hard HEAD; exit 3; }
 cd /verif && ./check $P --tier $T 2>&1 | grep -E "^(VIOLATION|OK|KNOWN|  ->)" | cut -c1-400
 cd /repo && git checkout -q -- . && git reset -q --hard HEAD && git status --short | head -3
